@@ -303,4 +303,100 @@ Proof.
   destruct v; simpl; auto; right; split; auto; discriminate.
 Qed.
 
+(* ------------------------------------------------------------------------------------------------ *)
+(** * deriveExtraModelAttributes seen through [a_value]                                              *)
+
+Definition tidy4 (a : attrs) : Prop :=
+  tidy a "Encoding" /\ tidy a "ParetoFrontMember" /\ tidy a "ValidAgainstScenario" /\ tidy a "ValidationErrors".
+
+Definition front_of (tbl : option table) (bits : list bool) : option bool :=
+  match tbl with
+  | Some t => match encoding_in_front t (encode bits) with Ok f => Some f | Panic => None end
+  | None => None
+  end.
+
+(* the attribute lookup of a model whose derived attributes were just rewritten for the action set [bits] *)
+Definition dview (tbl : option table) (d : desc) (bits : list bool) (base : string -> aval) (k : string) : aval :=
+  if String.eqb k "ValidationErrors" then (if d_valid d bits then ANull else AStr (d_errs d bits))
+  else if String.eqb k "ValidAgainstScenario" then ABool (d_valid d bits)
+  else if String.eqb k "ParetoFrontMember" then (match front_of tbl bits with Some f => ABool f | None => base k end)
+  else if String.eqb k "Encoding" then AStr (encode bits)
+  else base k.
+
+Lemma dview_idem : forall tbl d b b' base k, tbl_ok tbl -> dview tbl d b (dview tbl d b' base) k = dview tbl d b base k.
+Proof.
+  intros tbl d b b' base k Ht. unfold dview.
+  destruct (String.eqb k "ValidationErrors"); [reflexivity|].
+  destruct (String.eqb k "ValidAgainstScenario"); [reflexivity|].
+  destruct (String.eqb k "ParetoFrontMember") eqn:E; [|destruct (String.eqb k "Encoding"); reflexivity].
+  unfold front_of. destruct tbl as [t|]; [|reflexivity].
+  destruct (encoding_in_front_ok t (encode b) (Ht t eq_refl)) as [f Hf]. rewrite Hf. reflexivity.
+Qed.
+
+Lemma dview_ext : forall tbl d b base base' k, (forall k, base k = base' k) -> dview tbl d b base k = dview tbl d b base' k.
+Proof. intros. unfold dview. rewrite H. reflexivity. Qed.
+
+Lemma derive_tail : forall (d : desc) bits a2 a4,
+  (if d_valid d bits then ca_remove (ca_replace a2 "ValidAgainstScenario" (ABool (d_valid d bits))) "ValidationErrors"
+   else Ok (ca_replace (ca_replace a2 "ValidAgainstScenario" (ABool (d_valid d bits))) "ValidationErrors" (AStr (d_errs d bits)))) = Ok a4 ->
+  tidy a2 "ValidAgainstScenario" -> tidy a2 "ValidationErrors" ->
+  (forall k, a_value a4 k = if String.eqb k "ValidationErrors" then (if d_valid d bits then ANull else AStr (d_errs d bits))
+                            else if String.eqb k "ValidAgainstScenario" then ABool (d_valid d bits) else a_value a2 k)
+  /\ (forall k, tidy a2 k -> tidy a4 k).
+Proof.
+  intros d bits a2 a4 H T3 T4.
+  pose proof (ca_replace_upd a2 "ValidAgainstScenario" (ABool (d_valid d bits)) T3 eq_refl) as U3.
+  set (a3 := ca_replace a2 "ValidAgainstScenario" (ABool (d_valid d bits))) in *.
+  assert (T4' : tidy a3 "ValidationErrors") by (eapply upd_tidy_other; eauto).
+  assert (U4 : upd a3 a4 "ValidationErrors" (if d_valid d bits then ANull else AStr (d_errs d bits))).
+  { destruct (d_valid d bits).
+    - now apply ca_remove_upd.
+    - inversion H; subst. now apply ca_replace_upd. }
+  split.
+  - intro k. destruct U4 as [Hv4 _]. destruct U3 as [Hv3 _]. rewrite Hv4.
+    destruct (String.eqb k "ValidationErrors"); [reflexivity|]. now rewrite Hv3.
+  - intros k Hk. eapply upd_tidy_other; [exact U4|]. eapply upd_tidy_other; eauto.
+Qed.
+
+Lemma derive_view : forall tbl (m m' : mstate), derive tbl m = Ok m' -> tidy4 (m_attrs m) ->
+  (forall k, a_value (m_attrs m') k = dview tbl (m_desc m) (m_bits m) (a_value (m_attrs m)) k)
+  /\ (forall k, tidy (m_attrs m) k -> tidy (m_attrs m') k)
+  /\ m_desc m' = m_desc m /\ m_id m' = m_id m /\ m_bits m' = m_bits m.
+Proof.
+  intros tbl m m' H (T1 & T2 & T3 & T4). unfold derive in H.
+  pose proof (ca_replace_upd (m_attrs m) "Encoding" (AStr (encode (m_bits m))) T1 eq_refl) as U1.
+  set (a1 := ca_replace (m_attrs m) "Encoding" (AStr (encode (m_bits m)))) in *.
+  destruct tbl as [t|].
+  - unfold res_bind in H.
+    destruct (encoding_in_front t (encode (m_bits m))) as [found|] eqn:EF; [|discriminate].
+    pose proof (ca_replace_upd a1 "ParetoFrontMember" (ABool found) (upd_tidy_other _ _ _ _ _ U1 T2) eq_refl) as U2.
+    set (a2 := ca_replace a1 "ParetoFrontMember" (ABool found)) in *.
+    match type of H with match ?e with Ok _ => _ | Panic => _ end = _ => destruct e as [a4|] eqn:E4; [|discriminate] end.
+    inversion H; subst m'. simpl.
+    destruct (derive_tail (m_desc m) (m_bits m) a2 a4 E4) as [V4 TT4].
+    { eapply upd_tidy_other; [exact U2|]. eapply upd_tidy_other; eauto. }
+    { eapply upd_tidy_other; [exact U2|]. eapply upd_tidy_other; eauto. }
+    split; [|split; [|auto]].
+    + intro k. rewrite V4. unfold dview, front_of. rewrite EF.
+      destruct (String.eqb k "ValidationErrors"); [reflexivity|].
+      destruct (String.eqb k "ValidAgainstScenario"); [reflexivity|].
+      destruct U2 as [Hv2 _]. destruct U1 as [Hv1 _]. rewrite Hv2.
+      destruct (String.eqb k "ParetoFrontMember"); [reflexivity|]. now rewrite Hv1.
+    + intros k Hk. apply TT4. eapply upd_tidy_other; [exact U2|]. eapply upd_tidy_other; eauto.
+  - unfold res_bind in H.
+    match type of H with match ?e with Ok _ => _ | Panic => _ end = _ => destruct e as [a4|] eqn:E4; [|discriminate] end.
+    inversion H; subst m'. simpl.
+    destruct (derive_tail (m_desc m) (m_bits m) a1 a4 E4) as [V4 TT4].
+    { eapply upd_tidy_other; eauto. }
+    { eapply upd_tidy_other; eauto. }
+    split; [|split; [|auto]].
+    + intro k. rewrite V4. unfold dview, front_of.
+      destruct (String.eqb k "ValidationErrors"); [reflexivity|].
+      destruct (String.eqb k "ValidAgainstScenario"); [reflexivity|].
+      destruct U1 as [Hv1 _]. rewrite Hv1.
+      destruct (String.eqb k "ParetoFrontMember") eqn:EP; [|reflexivity].
+      apply String.eqb_eq in EP; subst k. reflexivity.
+    + intros k Hk. apply TT4. eapply upd_tidy_other; eauto.
+Qed.
+
 End C14.
